@@ -21,6 +21,12 @@ mod helpers {
     pub const K: i8 = 7;
     pub trait Mk { fn mk() -> Self; }
     impl Mk for i8 { fn mk() -> Self { 5 } }
+    /// a transparent wrapper, and two projections that give their argument back
+    #[derive(Clone, Copy, Debug, Default, PartialEq, Eq, PartialOrd, Ord, Hash)] pub struct Pass<T>(pub T);
+    pub trait IdT { type Out; }
+    impl<T> IdT for Pass<T> { type Out = T; }
+    pub trait ConvT<X> { type Out; }
+    impl<X> ConvT<X> for i8 { type Out = X; }
     /// implements every derivable trait for one value of its parameter only
     pub struct WN<const N: usize>;
     impl Clone for WN<3> { fn clone(&self) -> Self { WN } }
@@ -168,6 +174,25 @@ def gen_item(rng, names=None, want_enum=None, allow_attrs=True, plain=False, abs
                   f'::core::option::Option<::core::option::Option<{T}>>']
             if not copy:
                 c += [f'{VEC}<{T}>', f'{BOX}<{T}>', f'::std::vec::Vec<{T}>']
+        if has_T:
+            # composed types: the parameter wrapped once or twice in contexts that implement every derivable trait
+            # whenever their argument does (the generated `FieldTy: Trait` bound is then exactly what the body needs)
+            ctxs = [lambda x: f'{OPT}<{x}>', lambda x: f'({x}, i8)', lambda x: f'(i8, {x})', lambda x: f'({x},)', lambda x: f'[{x}; 2]',
+                    lambda x: f'::core::option::Option<{x}>',
+                    lambda x: f'helpers::Pass<{x}>', lambda x: f'<helpers::Pass<{x}> as helpers::IdT>::Out',
+                    lambda x: f'<i8 as helpers::ConvT<{x}>>::Out']
+            if not absolute:
+                # (relative `core::` / `std::` paths only where the test does not shadow those names)
+                ctxs += [lambda x: f'core::option::Option<{x}>']
+            if not copy:
+                ctxs += [lambda x: f'{VEC}<{x}>', lambda x: f'{BOX}<{x}>', lambda x: f'::std::vec::Vec<{x}>']
+                if not absolute:
+                    ctxs += [lambda x: f'std::boxed::Box<{x}>']
+            for _ in range(3):
+                t = T
+                for _ in range(rng.choice([1, 2, 2])):
+                    t = rng.choice(ctxs)(t)
+                c.append(t)
         if has_U:
             c += [U, f'({T}, {U})']
         if gkind == 'Tsrc':
